@@ -49,7 +49,7 @@ TIERS = {
                  "enum_len_ar": 10, "enum_len_arx": 7, "e2e_runs": 10000000, "e2e_budget_s": 900.0},
 }
 
-KINDS = ["pass", "reject", "raise_conv", "raise_bare", "pass_jitter", "pass_far", "pass_nanres", "pass_tuple3", "reject_npfalse"]
+KINDS = ["pass", "reject", "raise_conv", "raise_bare", "pass_jitter", "pass_far", "pass_nanres", "pass_tuple3", "reject_npfalse", "pass_same"]
 FAULT_KINDS = {"reject", "raise_conv", "raise_bare", "reject_npfalse"}
 
 _B = None
@@ -169,9 +169,9 @@ def run_protocol(ctx: RunCtx, c: dict) -> None:
             raise v
         # fault decision for this call
         p_now = pf if not (c["bursty"] and state["infail"]) else max(pf, 0.8)
-        w = [max(1e-9, 1.0 - p_now) * 0.55, p_now * 0.5, p_now * 0.25, p_now * 0.15,
+        w = [max(1e-9, 1.0 - p_now) * 0.49, p_now * 0.5, p_now * 0.25, p_now * 0.15,
              max(1e-9, 1.0 - p_now) * 0.25, max(1e-9, 1.0 - p_now) * 0.05, max(1e-9, 1.0 - p_now) * 0.05,
-             max(1e-9, 1.0 - p_now) * 0.10, p_now * 0.10]
+             max(1e-9, 1.0 - p_now) * 0.10, p_now * 0.10, max(1e-9, 1.0 - p_now) * 0.06]
         kind = KINDS[ds.choose(len(KINDS), f"corrector[{model.calls}]", w)]
         state["infail"] = kind in FAULT_KINDS
         state["outcomes"].append(kind)
@@ -192,6 +192,10 @@ def run_protocol(ctx: RunCtx, c: dict) -> None:
             ctx.probe("tangent_turned")
         elif kind == "pass_far":
             corrected[idx[0]] += np.sign(step0[0]) * (2.0 * half[0] + 1.0)
+        elif kind == "pass_same":
+            # the correction lands on the last member again, bit for bit: the secant through the last two members is undefined
+            corrected = model.family[-1].copy()
+            ctx.probe("corrected_equals_last_member")
         model.on_outcome(True, corrected)
         res = float("nan") if kind == "pass_nanres" else 1e-13
         if kind == "pass_tuple3":
@@ -243,7 +247,7 @@ def run_protocol(ctx: RunCtx, c: dict) -> None:
     for k, n in model.probes.items():
         ctx.probe(k, n)
     seq = "".join({"pass": "A", "pass_jitter": "J", "pass_far": "F", "pass_nanres": "N", "pass_tuple3": "T", "reject": "r",
-                   "reject_npfalse": "f", "raise_conv": "c", "raise_bare": "x"}[k] for k in state["outcomes"])
+                   "reject_npfalse": "f", "raise_conv": "c", "raise_bare": "x", "pass_same": "S"}[k] for k in state["outcomes"])
     ctx.sig_parts = [{k: v for k, v in c.items() if k not in ("pfail", "bursty")}, seq]
     ctx.nontrivial = bool(ctx.faults) or any(k in model.probes for k in ("target_left", "max_members_hit", "clamp_min_bound", "clamp_max_bound"))
     ctx.sample = {"leg": "protocol", "config": {k: v for k, v in c.items()}, "outcomes": seq, "family_size": len(fam),
